@@ -106,6 +106,11 @@ pub fn official(i: &Ins, alt: bool) -> Option<(Ins, Vec<Option<usize>>)> {
             (true, Opd::R(s)) => (Ins::new("jalr", vec![z, Opd::M(0, s)]), vec![Some(1)]),
             _ => (Ins::new("jalr", vec![z, rr(0)?, Opd::I(0)]), vec![Some(1)]),
         },
+        // `jalr rs` is short for `jalr ra, rs, 0`
+        ("jalr", 1) => match (alt, rr(0)?) {
+            (true, Opd::R(s)) => (Ins::new("jalr", vec![Opd::R(RA), Opd::M(0, s)]), vec![Some(1)]),
+            _ => (Ins::new("jalr", vec![Opd::R(RA), rr(0)?, Opd::I(0)]), vec![Some(1)]),
+        },
         ("ret", 0) => {
             if alt {
                 (Ins::new("jalr", vec![z, Opd::M(0, RA)]), vec![])
@@ -160,6 +165,24 @@ impl Prop for C13 {
                 (syn::program(ch, &o).0, "syntactic")
             }
         };
+        // one program in six makes one of its calls through a register (`la t, f` + `jalr t`)
+        let mut lines = lines;
+        if ch.chance(1, 6) {
+            let calls: Vec<usize> = lines
+                .iter()
+                .enumerate()
+                .filter(|(_, l)| matches!(l, Line::Ins(i) if (i.mn == "call" || i.mn == "jal") && i.ops.len() == 1))
+                .map(|(k, _)| k)
+                .collect();
+            if !calls.is_empty() {
+                let k = *ch.pick(&calls);
+                if let Line::Ins(i) = lines[k].clone() {
+                    let t = *ch.pick(&[5u8, 6, 28, 31]);
+                    lines[k] = Line::Ins(Ins::new("jalr", vec![Opd::R(t)]));
+                    lines.insert(k, Line::Ins(Ins::new("la", vec![Opd::R(t), i.ops[0].clone()])));
+                }
+            }
+        }
         let expand = lines.iter().map(|_| ch.chance(1, 2)).collect();
         let variant = lines.iter().map(|_| ch.chance(1, 2)).collect();
         let style = (0..(lines.len() * 6).min(700)).map(|_| ch.raw()).collect();
